@@ -58,6 +58,10 @@ type Scenario struct {
 	Deep       bool   `json:"deep"`
 	ValDelayMs int    `json:"valDelayMs"`
 	Steps      []Step `json:"steps"`
+	// Wire: client queries enter wire-born (Server.ServeRaw on a strict-slot transport) instead of
+	// message-born; Prefetch: the cache's background refresh threshold in percent (0 = off)
+	Wire     bool   `json:"wire"`
+	Prefetch uint32 `json:"prefetch"`
 }
 
 type Input struct {
@@ -457,10 +461,16 @@ func runScenario(t *testing.T, sc *Scenario, res *vh.Result, det *[]map[string]a
 			cfg.QnameMinLevel = 0
 			cfg.Timeout.Duration = 1500 * time.Millisecond
 			cfg.QueryTimeout.Duration = 6 * time.Second
+			cfg.Prefetch = sc.Prefetch
 		}})
 	// let priming / trust-anchor refresh finish so it does not interleave with the script
 	time.Sleep(400 * time.Millisecond)
-	ask := func(q *dns.Msg) *dns.Msg { return pipe.Ask(s, q, "udp", "203.0.113.7") }
+	ask := func(q *dns.Msg) *dns.Msg {
+		if sc.Wire {
+			return pipe.AskRaw(s, q, "udp", "203.0.113.7")
+		}
+		return pipe.Ask(s, q, "udp", "203.0.113.7")
+	}
 	t0 := time.Now()
 	var qs []queryRec
 	sleepUntil := func(at int) {
